@@ -416,16 +416,27 @@ func asteriskDefineProcess(
 	defineArgIdx int,
 	argTs []*base.T,
 	argIdx int,
-	isStatic bool,
+	methodT *base.T,
 ) (int, int) {
 
+	isStatic := methodT.IsStatic
 	asteriskArrayT := base.MakeAnyArray()
 
+	// positionals after the rest parameter that have to receive an argument;
+	// a defaulted or block parameter (c2json's "?Block" after "*args") does not
 	mustBindCt := 0
 	for _, name := range definedArgNames[defineArgIdx+1:] {
-		if !base.IsKeySuffix(name) {
-			mustBindCt++
+		if base.IsKeySuffix(name) {
+			continue
 		}
+
+		trailingT := getDefinedArgT(m, methodT, class, name)
+
+		if trailingT != nil && (trailingT.HasDefault() || trailingT.IsBlockType()) {
+			continue
+		}
+
+		mustBindCt++
 	}
 
 	var positionalArgTs []*base.T
@@ -440,8 +451,7 @@ func asteriskDefineProcess(
 	// the rest parameter of a user method learns its element types from the
 	// call; the rest parameter of a configured method keeps its declared type
 	restName := definedArgNames[defineArgIdx][1:]
-	declaredT :=
-		base.GetValueT(m.evaluatedObjectT.GetFrame(), class, m.method, restName, isStatic)
+	declaredT := getDefinedArgT(m, methodT, class, restName)
 	isConfigured := declaredT != nil && declaredT.IsBuiltin()
 
 	if mustBindCt >= len(positionalArgTs) {
@@ -592,7 +602,7 @@ func checkAndPropagateArgs(
 					defineArgIdx,
 					sortedArgTs,
 					argIdx,
-					methodT.IsStatic,
+					methodT,
 				)
 
 			continue
